@@ -8,7 +8,9 @@ for f in $(ls fixes/${P}_*.patch | sort -V); do
   m=${f%.patch}.msg
   if grep -q "$(basename $f)" fixes/APPLIED 2>/dev/null; then echo "skip $f (already applied)"; continue; fi
   if ! git -C /repo apply --check $PWD/$f 2>/dev/null; then
-     if git -C /repo apply --3way $PWD/$f 2>&1 | tail -3; then echo "3way applied $f"; else echo "CONFLICT $f"; exit 1; fi
+     git -C /repo apply --3way $PWD/$f 2>&1 | tail -3
+     if git -C /repo status --short | grep -q '^UU\|^AA\|^U\|^.U'; then echo "CONFLICT $f (left in /repo for manual resolution; then: git -C /repo add -A; rerun)"; exit 1; fi
+     echo "3way applied $f"
   else
      git -C /repo apply $PWD/$f
   fi
